@@ -46,8 +46,10 @@ CHECK_DEADLOCK FALSE
             v.spec_violation(f"CQueue(N={n},W={w})", r)
 
 
-def gen_and_replay(v, wd, tier, prop, tie_only=False):
-    if tier == "quick":
+def gen_and_replay(v, wd, tier, prop, bound=None):
+    if bound:
+        times, maxid, depth, stride = bound
+    elif tier == "quick":
         times, maxid, depth, stride = "{0,1,2,3}", 3, 7, 1
     else:
         times, maxid, depth, stride = "{0,1,2,3,4}", 4, 8, 1
@@ -66,11 +68,7 @@ CHECK_DEADLOCK FALSE
     arg_lists = [["fes", "replay", s, "--tier", tier, "--max-tick", str(max_tick), "--cfg-stride", str(stride)]
                  for s in shards]
     outs = vlib.run_vh_parallel(arg_lists)
-    crashed = [o for o in outs if "crash" in o]
-    for c in crashed:
-        v.add_violation("harness worker crashed while replaying FES behaviours (process died: memory unsafety?)",
-                        c, {"suite": "fes", "kind": "crash"})
-    tot = vlib.merge_summaries([o for o in outs if "crash" not in o])
+    tot = vlib.collect(v, outs, "fes", "replaying FES behaviours on CQueue")
     v.cov["traces_validated_against_impl"] += int(tot.get("replays", 0))
     v.cov["evaluations"] += int(tot.get("checks", 0))
     v.cov["distinct_nontrivial"] += int(tot.get("nontrivial", 0))
@@ -151,14 +149,13 @@ def record_and_validate(v, wd, tier, prop):
     arg_lists = [["fes", "record", "--seed", str(seed() * 1000 + i), "--runs", str(runs), "--ops", str(ops), "--out", f]
                  for i, f in enumerate(files)]
     outs = vlib.run_vh_parallel(arg_lists)
+    vlib.collect(v, outs, "fes", "driving CQueue with a random history")
     for o in outs:
-        if "crash" in o:
-            v.add_violation("harness worker crashed while driving CQueue with a random history", o, {"suite": "fes", "kind": "crash"})
         for m in o.get("mismatches", []):
             v.add_violation(f"CQueue panicked in a random history: {m.get('error')}", m, {"suite": "fes", "kind": "panic"})
 
     def one(i):
-        if not os.path.exists(files[i]):
+        if not os.path.exists(files[i]) or "hang" in outs[i] or "crash" in outs[i]:
             return 0, [], None
         return validate_trace_file("Trace_FES", "Times = {} MaxId = 260", files[i], wd, str(i))
     with ThreadPoolExecutor(max_workers=8) as ex:
@@ -192,6 +189,41 @@ def c01(tier):
     v.assumptions = ["expected results are embedding independent: FES uses times only through <, = (DESIGN 2.3)",
                      "TLC, the Rust compiler and the harness are trusted"]
     return v.finish()
+
+
+def c03(tier):
+    """Tie order: the dispatch key (t, cls, id) of FES *is* C03. Queue level (tie-heavy FES behaviours on
+    CQueue for all configurations) + runtime level (handlers emitting same-instant bursts)."""
+    import c_rt
+    v = Verdict("C03", tier)
+    vlib.build_harness()
+    wd = workdir("C03")
+    mc_fes(v, wd, tier)
+    mc_cqueue(v, wd, "quick")
+    # few distinct times, many ids: almost every behaviour contains ties and adds at the current time
+    if tier == "quick":
+        gen_and_replay(v, wd, tier, "C03", bound=("{0,1,2}", 4, 8, 1))
+    else:
+        gen_and_replay(v, wd, tier, "C03", bound=("{0,1,2}", 5, 9, 1))
+    consts = ("MaxT = 2 MaxId = 4 MaxSteps = 1 MaxExt = 2\n Menu <- MenuTies Seed = TRUE Starts = {0, 2} Limits <- LimitsNone"
+              if tier == "quick" else
+              "MaxT = 2 MaxId = 5 MaxSteps = 1 MaxExt = 2\n Menu <- MenuTies Seed = TRUE Starts = {0, 2} Limits <- LimitsNone")
+    c_rt.gen_replay(v, wd, tier, "C03", consts, 8, "handlers emitting same-instant bursts and zero-delay follow-ups")
+    v.cov["rule"] = ("tie-heavy behaviours (3 time values, 5-6 events): queue level on CQueue under every (n,w) x embedding (ties on bucket "
+                     "boundaries, year multiples, sub-bucket offsets), runtime level with zero-delay follow-ups after older events of the "
+                     "same timestamp; the dispatch sequence is compared as a sequence")
+    v.cov["exhaustive"] = True
+    v.assumptions = ["claimed for the default feature set (cqueue backend)"]
+    return v.finish()
+
+
+def c03_replay(path):
+    with open(path) as fh:
+        d = json.load(fh).get("detail", {})
+    if isinstance(d.get("behaviour"), list) and d["behaviour"] and d["behaviour"][0].get("op") == "cfg":
+        import c_rt
+        return c_rt._replay("C03", path)
+    return _replay("C03", path)
 
 
 def _replay(prop, path):
